@@ -196,6 +196,10 @@ class Gen:
             return []
         if kind == "list_int":
             return [scalar(rng, "int") for _ in range(rng.randint(1, 3))]
+        if kind == "list_str" and rng.random() < self.k.get("p_long_list", 0.0) and not self.k.get("bulk"):
+            # boundary size: hundreds of numeric strings, nearly all of one kind
+            major, minor = rng.choice([("str_float", "str_int"), ("str_int", "str_float"), ("str_float", "str_plain")])
+            return [scalar(rng, major if rng.random() < 0.98 else minor) for _ in range(rng.choice([300, 520, 700]))]
         if kind == "list_str":
             return [scalar(rng, rng.choice(["str_plain", "str_int", "str_long"])) for _ in range(rng.randint(1, 3))]
         if kind == "list_mixed":
@@ -288,7 +292,9 @@ class Gen:
             "structure": rng.choice(k["structures"]),
             # None = no comparators passed at all (ModelRegistry() with its shared class-level defaults / no --merge)
             "merge": rng.choice([["percent", "number"], ["exact"], ["percent_50", "number_2"], ["percent_100"],
-                                 ["number_1"], ["percent_70"], ["number_3", "exact"], ["percent_30"], None, None]),
+                                 ["number_1"], ["percent_70"], ["number_3", "exact"], ["percent_30"], None, None,
+                                 # one kind of comparator given twice: a pair merges when ANY comparator accepts it
+                                 ["percent_50", "percent_90"], ["number_2", "percent_95", "number_9"], ["percent_90", "percent_40"]]),
             "dict_keys_regex": rng.choice([[], [], [r"\d+"], [r"[a-z]\d*", r"\d+"], [r"\d+", r"[a-z]{1,2}"],
                                            [r"[a-h]\d", r"\d+", r"[a-z]+"], [r"\d"]]),
             "dict_keys_fields": rng.choice([[], [], [rng.choice(self.keys)]]),
@@ -349,6 +355,7 @@ def draw_knobs(rng: random.Random, **fixed):
         "p_pk_pair": rng.choice([0.0, 0.0, 0.0, 0.35]),
         # boundary size: a mapping-like object with hundreds of entries (a few of them of another kind)
         "p_big_dict": rng.choice([0.0] * 7 + [0.2]),
+        "p_long_list": rng.choice([0.0] * 7 + [0.3]),
     }
     if k["chain"]:
         k.update(n_models=1, depth=2, samples=max(3, k["samples"]), p_null=0.0, bulk=0)
